@@ -313,7 +313,10 @@ class Array(Processor):
 
             # Skip redundant bits post decoding.
             if self.extensible and not ctx.is_encode:
-                ito = i + ahead * self.capacity
+                # The 16 bits ahead flag is followed by `ahead` elements, each
+                # occupies the same number of bits as the ones just decoded.
+                element_nbits = (ctx.i - i - 16) // self.capacity
+                ito = i + 16 + ahead * element_nbits
                 if ito >= ctx.i:
                     ctx.i = ito
 
